@@ -29,6 +29,7 @@ type Loaded struct {
 	loadS   float64
 	gitHead string
 	diffSum string
+	dropped []string
 }
 
 // overlayFor maps /verif/harness/<pkg>/zz_*.go into /repo/<pkg>/ and the symbolic zzvp API into /repo/internal/zzvp.
@@ -54,8 +55,12 @@ func overlayFor(repoDir, verDir string, native bool) (map[string][]byte, error) 
 			if native {
 				ov[filepath.Join(repoDir, "internal", "zzvp", parts[len(parts)-1])] = b
 			}
+		case "zzos_native":
 		default:
 			// harness/<pkgpath with __ for />/file.go  e.g. harness/internal__store/zz_c06.go
+			if !native && parts[len(parts)-1] == "zz_map.go" {
+				break // the name -> function table is only needed by the native test binary
+			}
 			dir := strings.ReplaceAll(parts[0], "__", string(filepath.Separator))
 			ov[filepath.Join(repoDir, dir, parts[len(parts)-1])] = b
 		}
@@ -64,11 +69,33 @@ func overlayFor(repoDir, verDir string, native bool) (map[string][]byte, error) 
 	return ov, err
 }
 
+// Load type-checks /repo's working tree together with the harness overlay. A harness file that no longer compiles
+// against the tree (an unexported function it calls was renamed or re-typed) is dropped and the load repeated, so that
+// the remaining harnesses still run; the dropped files are reported (their harnesses count as not applicable to this tree).
 func Load(repoDir, verDir string) (*Loaded, error) {
 	ov, err := overlayFor(repoDir, verDir, false)
 	if err != nil {
 		return nil, err
 	}
+	var dropped []string
+	for attempt := 0; attempt < 8; attempt++ {
+		ld, bad, err := loadWith(repoDir, verDir, ov)
+		if err == nil {
+			ld.dropped = dropped
+			return ld, nil
+		}
+		if len(bad) == 0 {
+			return nil, err
+		}
+		for _, f := range bad {
+			delete(ov, f)
+			dropped = append(dropped, f)
+		}
+	}
+	return nil, fmt.Errorf("harness overlay does not compile against the tree")
+}
+
+func loadWith(repoDir, verDir string, ov map[string][]byte) (*Loaded, []string, error) {
 	cfg := &packages.Config{
 		Mode: packages.NeedName | packages.NeedFiles | packages.NeedCompiledGoFiles | packages.NeedImports |
 			packages.NeedDeps | packages.NeedTypes | packages.NeedSyntax | packages.NeedTypesInfo | packages.NeedTypesSizes | packages.NeedModule,
@@ -78,18 +105,29 @@ func Load(repoDir, verDir string) (*Loaded, error) {
 	}
 	pkgs, err := packages.Load(cfg, "./...")
 	if err != nil {
-		return nil, err
+		return nil, nil, err
 	}
 	var errs []string
+	badSet := map[string]bool{}
 	packages.Visit(pkgs, nil, func(p *packages.Package) {
 		if strings.HasPrefix(p.PkgPath, repoMod) {
 			for _, e := range p.Errors {
 				errs = append(errs, e.Error())
+				// position "file:line:col"
+				if i := strings.Index(e.Pos, ":"); i > 0 {
+					if _, isOverlay := ov[e.Pos[:i]]; isOverlay && strings.HasPrefix(filepath.Base(e.Pos[:i]), "zz_") {
+						badSet[e.Pos[:i]] = true
+					}
+				}
 			}
 		}
 	})
 	if len(errs) > 0 {
-		return nil, fmt.Errorf("load errors:\n%s", strings.Join(errs, "\n"))
+		var bad []string
+		for f := range badSet {
+			bad = append(bad, f)
+		}
+		return nil, bad, fmt.Errorf("load errors:\n%s", strings.Join(errs, "\n"))
 	}
 	prog, _ := ssautil.AllPackages(pkgs, ssa.InstantiateGenerics)
 	ld := &Loaded{prog: prog, pkgs: map[string]*ssa.Package{}, repoDir: repoDir, verDir: verDir}
@@ -103,7 +141,7 @@ func Load(repoDir, verDir string) (*Loaded, error) {
 	ld.gitHead = strings.TrimSpace(runOut(repoDir, "git", "rev-parse", "HEAD"))
 	diff := runOut(repoDir, "git", "diff", "HEAD")
 	ld.diffSum = fmt.Sprintf("%x", sha256.Sum256([]byte(diff)))[:16]
-	return ld, nil
+	return ld, nil, nil
 }
 
 func runOut(dir string, name string, args ...string) string {
